@@ -28,6 +28,8 @@ func c19Baselines() []c19Baseline {
 	coldFail.DialFails = 2
 	withU := cold
 	withU.Untrusted = 1
+	giveUp := cold
+	giveUp.DialFails, giveUp.MaxRetries = 6, 2
 	burst := cold
 	burst.Burst = 104
 	burstU := burst
@@ -41,6 +43,8 @@ func c19Baselines() []c19Baseline {
 			[]string{"multi:burst:T|burst:U1", "tick:250"}, []string{"stop"}},
 		{"the application's output fetcher fails while a block with a new relevant tx is processed; Stop at every point and at the end", histParams{Prop: "C19", Cfg: cold, Boot: "synced", Tx: true},
 			[]string{"ffail", "mine:R1", "ans", "tick:250", "tick:250", "ext:1", "ans", "tick:250", "astop", "tick:100"}, []string{"stop"}},
+		{"the trusted peer refuses more dials than MaxRetries (the node logs that it gives up and keeps trying); Stop at every point and at the end", histParams{Prop: "C19", Cfg: giveUp, Boot: "cold", Tx: true},
+			[]string{"tick:1000", "tick:1000", "tick:1000", "tick:1000", "tick:1000", "astop", "tick:100"}, []string{"stop"}},
 		{"cold start: connect, handshake, header sync, block download, in sync, tx traffic, block with a relevant tx", histParams{Prop: "C19", Cfg: cold, Boot: "cold", Tx: true},
 			[]string{"settle", "tx:T:R1", "tick:250", "mine:R1", "ans", "tick:250", "ext:2", "settle", "tick:2300"}, env},
 		{"trusted peer refuses the first two dials (waiting to reconnect)", histParams{Prop: "C19", Cfg: coldFail, Boot: "cold", Tx: true},
